@@ -365,8 +365,25 @@ pub fn hex_bytes(bs: &[u8]) -> String {
     s
 }
 pub fn unhex_bytes(s: &str) -> Vec<u8> {
-    let cs: Vec<u8> = s.bytes().filter(|c| c.is_ascii_hexdigit()).collect();
-    cs.chunks(2).filter(|c| c.len() == 2).map(|c| u8::from_str_radix(std::str::from_utf8(c).unwrap(), 16).unwrap()).collect()
+    fn nib(c: u8) -> Option<u8> {
+        match c {
+            b'0'..=b'9' => Some(c - b'0'),
+            b'a'..=b'f' => Some(c - b'a' + 10),
+            b'A'..=b'F' => Some(c - b'A' + 10),
+            _ => None,
+        }
+    }
+    let mut out = Vec::with_capacity(s.len() / 2);
+    let mut hi: Option<u8> = None;
+    for c in s.bytes() {
+        if let Some(n) = nib(c) {
+            match hi.take() {
+                None => hi = Some(n),
+                Some(h) => out.push((h << 4) | n),
+            }
+        }
+    }
+    out
 }
 pub fn words_to_bytes(ws: &[u32]) -> Vec<u8> {
     let mut v = Vec::with_capacity(ws.len() * 4);
@@ -583,6 +600,8 @@ pub struct Cfg {
     pub mode: String,
     /// (i, n): only run cases with idx % n == i (sharded sanitizer processes)
     pub shard: Option<(u64, u64)>,
+    /// corpus file: written by the debug stage, read by the Miri stage (keeps generators out of Miri)
+    pub corpus: Option<String>,
 }
 
 impl Cfg {
